@@ -1,6 +1,7 @@
 import JSL.Lib.StepSpec
 import JSL.Inv.EnvReach
 import JSL.Inv.ObsSpace
+import JSL.Inv.OpArraySpace
 
 /-!
 # C14 — the environment honours the Gymnasium contract
@@ -72,5 +73,42 @@ by
     { jobRunning := [], jobExecutedOnMachine := [], jobProgression := [], machineRunning := [],
       machineProgression := [], availableJobs := [], currentTime := 6 / 5 }, ?_, by decide +kernel⟩
   simp [simpleObs, sortById, List.mergeSort_nil, List.mapM_nil, List.foldlM_nil]
+
+/-! ### operation-array factory and the offer encoding -/
+
+/-- **`operation_state` lies in `[0,1]`** in every environment state of every episode (idle 0, done 1,
+the elapsed fraction of an operation in progress – the clock lies within its interval). -/
+theorem c14_operation_state_in_unit {s0 : State} (hst : Start orc inst s0) {e : EnvState}
+    (he : EnvReach orc inst ec st s0 e) (ops locs : List Rat) (h : opArrayObs inst e.res.state = .ok (ops, locs)) :
+    (∀ v ∈ ops, 0 ≤ v ∧ v ≤ 1) ∧ ops.length = (e.res.state.jobs.flatMap (·.ops)).length :=
+  opArray_operation_state_env_all hst he ops locs h
+
+/-- **`job_locations` lies in `[0,1]`** when the configured buffer ids are `0 … n-1` in some order (what
+the compiler produces when it numbers every buffer itself); -/
+theorem c14_job_locations_in_unit {s0 : State} (hst : Start orc inst s0) {e : EnvState}
+    (he : EnvReach orc inst ec st s0 e)
+    (hids : ((allBufCfgs inst).map (·.id)).Perm (List.range (allBufCfgs inst).length))
+    (ops locs : List Rat) (h : opArrayObs inst e.res.state = .ok (ops, locs)) :
+    (∀ v ∈ locs, 0 ≤ v ∧ v ≤ 1) ∧ locs.length = e.res.state.jobs.length :=
+  opArray_job_locations_env hst he hids ops locs h
+
+/-- …and exceeds 1 when a buffer id is beyond the number of buffers (witness of the recorded finding) -/
+theorem c14_job_locations_leave_space :
+    let inst : Instance := { jobs := [], travel := [], machines := [],
+                             buffers := [default, { (default : BufCfg) with id := 5 }], transports := [] }
+    let s : State := { jobs := [{ id := 0, ops := [], loc := 5 }], time := 0, machines := [],
+                       transports := [], buffers := [default, { (default : BufState) with id := 5, store := [0] }] }
+    opArrayMaxBuf inst = 1 ∧ (∃ j ∈ s.jobs, opArrayMaxBuf inst < (j.loc : Int)) ∧
+    ∃ ops locs, opArrayObs inst s = .ok (ops, locs) ∧ ∃ v ∈ locs, 1 < v :=
+  opArray_job_locations_exceed_witness
+
+/-- **the offer encoding lies in `[0,1]³`** (and is `(1,1,1)` exactly for a finished episode) as long as
+job numbers do not exceed the number of jobs -/
+theorem c14_offer_encoding_in_unit (inst : Instance) (n : Nat) (res : SMResult) (done : Bool)
+    (a b c : Rat) (h : currentTransition inst n res done = .ok (a, b, c))
+    (hj : ∀ tr rest, res.possible = tr :: rest → ∀ j, tr.job = some j → j ≤ n) :
+    (0 ≤ a ∧ a ≤ 1) ∧ (0 ≤ b ∧ b ≤ 1) ∧ (0 ≤ c ∧ c ≤ 1) ∧
+    (done = true → a = 1 ∧ b = 1 ∧ c = 1) ∧ (done = false → a < 1) :=
+  currentTransition_in_unit inst n res done a b c h hj
 
 end JSL
